@@ -12,7 +12,7 @@ use crate::engine::{Run, V};
 use crate::gens::value::TV;
 use crate::vrlx;
 
-pub const RULE: &str = "cases = (query q1, query q2, event, second event that differs from the first only in fields and tags that neither query addresses). Queries are trees of NOT/-, AND/&&/implicit AND, OR/|| (depth <= 3, mixed operators always parenthesised) over leaves field x {term, phrase, prefix, glob, _exists_, _missing_, comparison, range} with fields {@a, @b.c, @b, @n, tag1, tag2, env, host, service, default field} and values {foo, foobar, bar, 1, 2, 10, 1.5, 2x, \"foo bar\", ...}; events draw message/custom.*/a/b/n/host/service/tags/zz from the same vocabulary (strings, integers, floats, booleans, null, arrays, objects). One VRL program evaluates match_datadog_query for q1, q2, every leaf, and the composed texts NOT (q), -(q), +(q), (q1) AND/<blank>/|| (q2), both De Morgan pairs and the _exists_/_missing_ duals, on both events. Asserted: (A) the result of a query equals the boolean structure of the harness's own tree applied to vrl's results for its leaves; (B) the composition identities; (C) both events give the same results (irrelevance); (D) agreement with a reference evaluator for @attribute leaves on string/integer/non-integral-float values and for tag leaves. A second sub-check asserts range == conjunction of its bounds ([* TO y] == <=y, [x TO *] == >=x, [* TO *] == _exists_) for every field class. Non-trivial = the query has an operator or a range and both truth values occur among its leaf results. Distinct = distinct serialised cases.";
+pub const RULE: &str = "cases = (query q1, query q2, event, second event that differs from the first only in fields and tags that neither query addresses). Queries are trees of NOT/-, AND/&&/implicit AND, OR/|| (depth <= 3, mixed operators always parenthesised) over leaves field x {term, phrase, prefix, glob, _exists_, _missing_, comparison, range} with fields {@a, @b.c, @b, @n, tag1, tag2, env, host, service, default field} and values {foo, foobar, bar, 1, 2, 10, 1.5, 2x, \"foo bar\", ...}; events draw message/custom.*/a/b/n/host/service/tags/zz from the same vocabulary (strings, integers, floats, booleans, null, arrays, objects). One VRL program evaluates match_datadog_query for q1, q2, every leaf, and the composed texts NOT (q), -(q), +(q), (q1) AND/<blank>/|| (q2), both De Morgan pairs and the _exists_/_missing_ duals, on both events. Asserted: (A) the result of a query equals the boolean structure of the harness's own tree applied to vrl's results for its leaves; (B) the composition identities; (C) both events give the same results (irrelevance); (D) agreement with a reference evaluator for @attribute leaves on string/integer/non-integral-float values and for tag leaves. Ranges are generated with independently chosen brackets (`[l TO u}` and `{l TO u]` included). A second sub-check asserts range == conjunction of its bounds ([* TO y] == <=y, [x TO *] == >=x, [* TO *] == _exists_) for every field class. Non-trivial = the query has an operator or a range and both truth values occur among its leaf results. Distinct = distinct serialised cases.";
 pub const NOTE: &str = "the reference evaluator (attribute: stringified scalar equality / starts_with / whole-string glob with * and ? / numeric comparison when both sides are numbers, otherwise string order; tag: `key:value` element of `tags`, `key` or `key:...` for existence) is written from the Datadog search-syntax documentation and answers 'unspecified' for the default field, reserved fields, null/boolean/array/object/integral-float attribute values and numeric bounds on tags; each leaf text is confirmed with vrl's parser to be a single clause before composition laws are asserted on it";
 
 pub const SW_TAG_CMP: &str = "c31-tag-compare-ignores-key";
@@ -46,7 +46,14 @@ pub enum Leaf {
     Missing,
     /// 0 `>`, 1 `>=`, 2 `<`, 3 `<=`
     Cmp(u8, Bound),
-    Range { lo: Option<Bound>, hi: Option<Bound>, incl: bool },
+    /// `incl`: the lower bracket is `[`; `hi_incl`: the upper bracket is `]` (None = same as the lower one)
+    Range {
+        lo: Option<Bound>,
+        hi: Option<Bound>,
+        incl: bool,
+        #[serde(default)]
+        hi_incl: Option<bool>,
+    },
 }
 
 #[derive(Clone, Debug, Serialize, Deserialize, PartialEq)]
@@ -75,6 +82,9 @@ pub struct RangeCase {
     pub lo: Option<Bound>,
     pub hi: Option<Bound>,
     pub incl: bool,
+    /// upper bracket inclusive (None = same as the lower bracket)
+    #[serde(default)]
+    pub hi_incl: Option<bool>,
     pub ev: TV,
 }
 
@@ -117,13 +127,11 @@ pub fn leaf_text(f: &Fld, l: &Leaf) -> String {
         Leaf::Exists => format!("_exists_:{}", field_name(f)),
         Leaf::Missing => format!("_missing_:{}", field_name(f)),
         Leaf::Cmp(op, b) => format!("{p}{}{}", OPS[(*op as usize) % 4], bound_text(b)),
-        Leaf::Range { lo, hi, incl } => {
+        Leaf::Range { lo, hi, incl, hi_incl } => {
             let t = |b: &Option<Bound>| b.as_ref().map_or("*".to_string(), bound_text);
-            if *incl {
-                format!("{p}[{} TO {}]", t(lo), t(hi))
-            } else {
-                format!("{p}{{{} TO {}}}", t(lo), t(hi))
-            }
+            let open = if *incl { '[' } else { '{' };
+            let close = if hi_incl.unwrap_or(*incl) { ']' } else { '}' };
+            format!("{p}{open}{} TO {}{close}", t(lo), t(hi))
         }
     }
 }
@@ -378,12 +386,12 @@ fn or3(a: Option<bool>, b: Option<bool>) -> Option<bool> {
     }
 }
 
-fn range3(lo: &Option<Bound>, hi: &Option<Bound>, incl: bool, exists: Option<bool>, cmp: &dyn Fn(u8, &Bound) -> Option<bool>) -> Option<bool> {
+fn range3(lo: &Option<Bound>, hi: &Option<Bound>, incl: bool, hi_incl: bool, exists: Option<bool>, cmp: &dyn Fn(u8, &Bound) -> Option<bool>) -> Option<bool> {
     match (lo, hi) {
         (None, None) => exists,
         (Some(l), None) => cmp(if incl { 1 } else { 0 }, l),
-        (None, Some(h)) => cmp(if incl { 3 } else { 2 }, h),
-        (Some(l), Some(h)) => and3(cmp(if incl { 1 } else { 0 }, l), cmp(if incl { 3 } else { 2 }, h)),
+        (None, Some(h)) => cmp(if hi_incl { 3 } else { 2 }, h),
+        (Some(l), Some(h)) => and3(cmp(if incl { 1 } else { 0 }, l), cmp(if hi_incl { 3 } else { 2 }, h)),
     }
 }
 
@@ -405,8 +413,8 @@ fn ref_leaf(f: &Fld, l: &Leaf, ev: &TV) -> Option<bool> {
             if let Leaf::Cmp(op, b) = l {
                 return attr_cmp(v, *op, b);
             }
-            if let Leaf::Range { lo, hi, incl } = l {
-                return range3(lo, hi, *incl, exists, &|op, b| attr_cmp(v, op, b));
+            if let Leaf::Range { lo, hi, incl, hi_incl } = l {
+                return range3(lo, hi, *incl, hi_incl.unwrap_or(*incl), exists, &|op, b| attr_cmp(v, op, b));
             }
             let s = scalar_text(v)?;
             match l {
@@ -442,7 +450,7 @@ fn ref_leaf(f: &Fld, l: &Leaf, ev: &TV) -> Option<bool> {
                 Leaf::Prefix(p) => Some(values.iter().any(|x| x.starts_with(p.as_str()))),
                 Leaf::Glob(g) => Some(values.iter().any(|x| glob(g, x))),
                 Leaf::Cmp(op, b) => tag_cmp(*op, b),
-                Leaf::Range { lo, hi, incl } => range3(lo, hi, *incl, Some(exists), &tag_cmp),
+                Leaf::Range { lo, hi, incl, hi_incl } => range3(lo, hi, *incl, hi_incl.unwrap_or(*incl), Some(exists), &tag_cmp),
             }
         }
         Fld::Reserved(_) | Fld::Default => None,
@@ -651,9 +659,9 @@ fn default_fields_present(ev: &TV) -> usize {
 fn check_range(c: &RangeCase) -> V {
     let p = field_prefix(&c.fld);
     let t = |b: &Option<Bound>| b.as_ref().map_or("*".to_string(), bound_text);
-    let range = leaf_text(&c.fld, &Leaf::Range { lo: c.lo.clone(), hi: c.hi.clone(), incl: c.incl });
+    let range = leaf_text(&c.fld, &Leaf::Range { lo: c.lo.clone(), hi: c.hi.clone(), incl: c.incl, hi_incl: c.hi_incl });
     let lower = format!("{p}{}{}", if c.incl { ">=" } else { ">" }, t(&c.lo));
-    let upper = format!("{p}{}{}", if c.incl { "<=" } else { "<" }, t(&c.hi));
+    let upper = format!("{p}{}{}", if c.hi_incl.unwrap_or(c.incl) { "<=" } else { "<" }, t(&c.hi));
     let exists = leaf_text(&c.fld, &Leaf::Exists);
     let mut texts = vec![range.clone(), exists.clone()];
     if c.lo.is_some() {
@@ -751,11 +759,11 @@ fn leaf_of(f: Fld, tag_cmp_off: bool, qmark_off: bool) -> BoxedStrategy<Q> {
         2 => Just(Leaf::Exists),
         2 => Just(Leaf::Missing),
         4 => (0u8..4, bound()).prop_map(move |(op, b)| if no_cmp { Leaf::Exists } else { Leaf::Cmp(op, b) }),
-        4 => (prop::option::weighted(0.75, bound()), prop::option::weighted(0.75, bound()), any::<bool>()).prop_map(move |(lo, hi, incl)| {
+        4 => (prop::option::weighted(0.75, bound()), prop::option::weighted(0.75, bound()), any::<bool>(), prop::option::weighted(0.5, any::<bool>())).prop_map(move |(lo, hi, incl, hi_incl)| {
             if no_cmp {
-                Leaf::Range { lo: None, hi: None, incl }
+                Leaf::Range { lo: None, hi: None, incl, hi_incl }
             } else {
-                Leaf::Range { lo, hi, incl }
+                Leaf::Range { lo, hi, incl, hi_incl }
             }
         }),
     ];
@@ -883,8 +891,8 @@ fn case(tag_cmp_off: bool, qmark_off: bool) -> impl Strategy<Value = Case> {
 }
 
 fn range_case() -> impl Strategy<Value = RangeCase> {
-    (fld(), prop::option::weighted(0.8, bound()), prop::option::weighted(0.8, bound()), any::<bool>(), event())
-        .prop_map(|(fld, lo, hi, incl, ev)| RangeCase { fld, lo, hi, incl, ev })
+    (fld(), prop::option::weighted(0.8, bound()), prop::option::weighted(0.8, bound()), any::<bool>(), prop::option::weighted(0.5, any::<bool>()), event())
+        .prop_map(|(fld, lo, hi, incl, hi_incl, ev)| RangeCase { fld, lo, hi, incl, hi_incl, ev })
 }
 
 pub fn run(r: &mut Run) {
